@@ -1618,13 +1618,26 @@ func ruleLexQueue(c *Ctx) []Obligation {
 		}
 	}
 	var obs []Obligation
-	for _, s := range m.states {
-		con := fmt.Sprintf("%s: emits a bounded number of tokens per call, below the queue's capacity", c.FnName(s))
+	// tokens a call of a state can emit before the queue is drained again: its own emitting calls plus those of the
+	// states it calls directly (a state it *returns* runs after the drain); -1 = not bounded
+	memo := map[*ssa.Function]int{}
+	whyNot := map[*ssa.Function]string{}
+	var count func(s *ssa.Function, stack map[*ssa.Function]bool) int
+	count = func(s *ssa.Function, stack map[*ssa.Function]bool) int {
+		if v, done := memo[s]; done {
+			return v
+		}
+		if stack[s] {
+			whyNot[s] = "calls itself directly, through other states"
+			return -1
+		}
+		stack[s] = true
+		defer delete(stack, s)
 		n := 0
-		bad1 := ""
+		unbounded := ""
 		eachInstr(s, func(in ssa.Instruction) {
 			ci, isC := in.(ssa.CallInstruction)
-			if !isC {
+			if !isC || unbounded != "" {
 				return
 			}
 			cal := ci.Common().StaticCallee()
@@ -1632,8 +1645,14 @@ func ruleLexQueue(c *Ctx) []Obligation {
 				return
 			}
 			if isState[cal] {
-				if bad1 == "" {
-					bad1 = "calls the state function " + c.FnName(cal) + " directly instead of returning it (" + c.InstrPos(in) + "): the tokens of both accumulate before the queue is drained"
+				k := count(cal, stack)
+				switch {
+				case k < 0:
+					unbounded = "calls the state function " + c.FnName(cal) + " directly (" + c.InstrPos(in) + "), which " + whyNot[cal]
+				case k > 0 && loopHeaderOf(in.Block()) != nil:
+					unbounded = "calls the emitting state function " + c.FnName(cal) + " inside a loop (" + c.InstrPos(in) + ")"
+				default:
+					n += k
 				}
 				return
 			}
@@ -1641,17 +1660,28 @@ func ruleLexQueue(c *Ctx) []Obligation {
 				return
 			}
 			n++
-			if loopHeaderOf(in.Block()) != nil && bad1 == "" {
-				bad1 = "emits inside a loop (" + c.InstrPos(in) + "): the number of tokens per call is not bounded"
+			if loopHeaderOf(in.Block()) != nil {
+				unbounded = "emits inside a loop (" + c.InstrPos(in) + "): the number of tokens per call is not bounded"
 			}
 		})
+		if unbounded != "" {
+			whyNot[s] = unbounded
+			memo[s] = -1
+			return -1
+		}
+		memo[s] = n
+		return n
+	}
+	for _, s := range m.states {
+		con := fmt.Sprintf("%s: emits a bounded number of tokens per call, below the queue's capacity", c.FnName(s))
+		n := count(s, map[*ssa.Function]bool{})
 		switch {
-		case bad1 != "":
-			obs = append(obs, bad(R, con, c.Pos(s.Pos()), bad1+"; the send is non-blocking, so what does not fit into the queue is dropped silently — a well-formed text is rejected (\"missing closing brace\") or mis-parsed"))
+		case n < 0:
+			obs = append(obs, bad(R, con, c.Pos(s.Pos()), whyNot[s]+"; the send is non-blocking, so what does not fit into the queue is dropped silently — a well-formed text is rejected (\"missing closing brace\") or mis-parsed"))
 		case capK >= 0 && int64(n) > capK:
-			obs = append(obs, bad(R, con, c.Pos(s.Pos()), fmt.Sprintf("%d emitting calls on a path set, queue capacity %d", n, capK)))
+			obs = append(obs, bad(R, con, c.Pos(s.Pos()), fmt.Sprintf("up to %d tokens before the queue is drained (its own emitting calls and those of the states it calls directly), queue capacity %d; the send is non-blocking, so the surplus is dropped silently", n, capK)))
 		default:
-			o := ok(R, con, c.Pos(s.Pos()), fmt.Sprintf("%d emitting call(s), none in a loop, no direct call of a state; capacity %d", n, capK))
+			o := ok(R, con, c.Pos(s.Pos()), fmt.Sprintf("at most %d token(s) before the queue is drained, none emitted in a loop; capacity %d", n, capK))
 			if n == 0 {
 				o.Trivial = true
 			}
